@@ -129,7 +129,16 @@ type Bits = bool[1]'
 message Shell { message A { message B { message C {} } } }
 message Holder' { Shell s = 255; Shell.A.B.C[1] cs = 1; Bits b = 2; Alone[2]' as = 3 }
 """
-QUICK_SEEDS = ["basic", "nested", "imports", "empty", "arith", "semis", "odd"]
+SEEDS["unders"] = """proto unders
+option c.name_prefix = "pre_"
+const __K = 1
+const K__2 = 2
+enum _Kind : uint2 { _KIND_A = 0; KIND__B = 1 }
+type _Alias = uint3[2]
+message Frame__Header { uint3 seq__no = 1; bool _flag = 2; _Kind kind_ = 3 }
+message Outer_ { message _Inner { message __Deep { bool x_ = 1 } __Deep d = 1 } _Inner i = 1; _Inner.__Deep[2] ds = 2; _Alias a = 3 }
+"""
+QUICK_SEEDS = ["basic", "nested", "imports", "empty", "arith", "semis", "odd", "unders"]
 
 AUX = {
     "lib.bitproto": "proto lib\n\nconst LK = 2\n\nenum LE : uint2 {\n    LE_A = 0\n}\n\nmessage LM {\n    bool z = 1\n}\n",
@@ -140,7 +149,7 @@ VOCAB = ["proto", "import", "option", "type", "const", "enum", "message", "typed
          ":", ";", "{", "}", "[", "]", "(", ")", "/", "=", "\\", "'", ".", "+", "-", "*",
          "bool", "byte", "uint0", "uint1", "uint64", "uint65", "int0", "int65", "int8",
          "0", "1", "255", "65536", "4294967296", "9" * 5000, "0x", "0xFF", "0xFFFFFFFFFFFFFFFFFF",
-         "x", "Foo", "a.b", "lib.LE", "typex", "proto_x", "Color", "MAX",
+         "x", "Foo", "a.b", "lib.LE", "typex", "proto_x", "Color", "MAX", "_", "__", "_x", "a__b", "X_",
          '"s"', '""', '"a\\"b"', '"\\q"', '"unterminated', '"lib.bitproto"',
          "true", "yes", "no", "// c", "\n", "\x00", "é", "/*", "#", ","]
 
@@ -196,7 +205,7 @@ def fragments(tier):
     n = 2 if tier == "quick" else 3
     for cname, ctx in CONTEXTS:
         for k in range(0, n + 1):
-            for combo in itertools.product(FRAG_VOCAB, repeat=k):
+            for combo in itertools.product(FRAG_VOCAB if k < 3 else FRAG_VOCAB[:26], repeat=k):
                 yield ("fragment", cname, combo), ctx.replace("@@", " ".join(combo))
 
 
@@ -239,8 +248,8 @@ def all_inputs(tier):
     if tier == "thorough":
         # k = 2 edits on the two smallest seeds (every 3rd first edit x every 5th second edit)
         for n in ("empty", "semis"):
-            for l1, t1 in itertools.islice(edits(SEEDS[n]), 0, None, 3):
-                for l2, t2 in itertools.islice(edits(t1), 0, None, 5):
+            for l1, t1 in itertools.islice(edits(SEEDS[n]), 0, None, 7):
+                for l2, t2 in itertools.islice(edits(t1), 0, None, 11):
                     out.append(((n, "2-edits") + tuple(map(str, l1)) + tuple(map(str, l2)), t2, {}))
     return out
 
@@ -398,7 +407,7 @@ def main(pid, tier):
                     "contexts, import environment answers (missing, directory, empty, invalid imported file); every accepted input rendered by every "
                     "renderer (c .h/.c, go, py; -O x 3 endians and go -O when traditional); oracle: Proto | ParserError | OSError, str | "
                     "RendererError, 10 s watchdog; non-trivial = input not accepted" % (len(VOCAB), 2 if tier == "quick" else 3, len(CONTEXTS)),
-               exhaustive=True, bound="k=1 token edits%s; fragments <= %d tokens" % ("" if tier == "quick" else " (+ a strided k=2 layer on two seeds)", 2 if tier == "quick" else 3))
+               exhaustive=True, bound="k=1 token edits%s; fragments <= %d tokens" % ("" if tier == "quick" else " (+ a strided k=2 layer (every 7th first edit x every 11th second edit) on two seeds; 3-token fragments over the first 26 vocabulary items)", 2 if tier == "quick" else 3))
     return finish(PID, tier, acc, cov, t0, assumptions=["deep nesting (RecursionError near 1000 levels) is outside the bound"], guards=g)
 
 
